@@ -110,6 +110,7 @@ pub fn base_swarm(r: &mut Rng) -> GenCfg {
     w_op[OW_BUILDER] = if r.chance(1, 2) { 1 } else { 0 };
     w_op[OW_CONVERT] = if r.chance(1, 3) { 1 } else { 0 };
     w_op[OW_ZST] = if r.chance(1, 3) { 1 } else { 0 };
+    w_op[OW_HANDLE_IN] = if r.chance(1, 2) { 1 } else { 0 };
     let mut w_event = [0u32; EW_N];
     w_event[EW_MUTATE] = 10;
     w_event[EW_COLLECT] = 10;
@@ -145,7 +146,14 @@ pub fn base_swarm(r: &mut Rng) -> GenCfg {
         settle_after_adoption: false,
         bare_bias: [0, 2, 4][r.below(3)],
         static_bias: 0,
+        rootless_bias: 0,
     }
+}
+
+/// Is this process part of a thorough-tier batch? (VERIF_TIER, exported by the driver to its workers)
+pub fn thorough_tier() -> bool {
+    static T: std::sync::OnceLock<bool> = std::sync::OnceLock::new();
+    *T.get_or_init(|| std::env::var("VERIF_TIER").is_ok_and(|t| t == "thorough"))
 }
 
 /// Swarm configuration of run `seed` for property `prop`.
@@ -284,6 +292,7 @@ pub fn swarm(prop: &str, seed: u64) -> (GenCfg, Suffix, Shape) {
         "C14" => {
             c.w_op[OW_STASH] = 5;
             c.w_op[OW_PROBE] = 4;
+            c.w_op[OW_HANDLE_IN] = 3;
             c.w_event[EW_HANDLE] = 8;
             c.max_handles = r.range(3, 8);
             c.arenas = r.range(1, 3);
@@ -346,6 +355,10 @@ pub fn swarm(prop: &str, seed: u64) -> (GenCfg, Suffix, Shape) {
     if sshare > 0 && r.chance(1, sshare) {
         c.static_bias = if c.arenas > 1 { 6 } else { 16 };
     }
+    // arena-less contexts (`rootless_mutate`), a few per run at most
+    if matches!(prop, "C03" | "C04" | "C17" | "C18" | "C19" | "C10" | "C11" | "C20") && r.chance(1, 4) {
+        c.rootless_bias = 3;
+    }
     // behaviour of the memory seam (a fault kind of its own): released addresses handed out
     // again at once. Drawn last so that the rest of the configuration does not depend on it.
     let share = match prop {
@@ -357,6 +370,23 @@ pub fn swarm(prop: &str, seed: u64) -> (GenCfg, Suffix, Shape) {
     if share > 0 && r.chance(1, share) {
         c.recycle = true;
         c.quarantine = false;
+    }
+    // thorough tier: one run in 24 is a long one over a large graph (queue and table growth, many
+    // cycles in one history, pacing far from its start-up transient)
+    if shape == Shape::Free && thorough_tier() && !cfg!(miri) && r.chance(1, 24) {
+        c.events = (c.events * 4).min(480);
+        c.max_objs = (c.max_objs * 3).min(144);
+        c.max_handles = (c.max_handles * 3).min(24);
+    }
+    if cfg!(miri) {
+        // under the interpreter a run costs seconds: short schedules over small graphs (the
+        // allocator seam is off there, Miri itself watches every access)
+        c.events = c.events.min(if shape == Shape::Free { 16 } else { 8 });
+        c.max_objs = c.max_objs.min(8);
+        c.ops_hi = c.ops_hi.min(4);
+        c.burst_max = c.burst_max.min(3);
+        c.max_handles = c.max_handles.min(3);
+        c.ctor_ops = c.ctor_ops.min(2);
     }
     (c, suffix, shape)
 }
